@@ -1884,6 +1884,10 @@ struct ReportDataResponder<'a, 'b, 'c, const NE: usize, C> {
     events: &'a Events<NE>,
     /// Whether at least one `ReportData` message was sent by this responder.
     sent: bool,
+    /// Whether the chunk being assembled is a fresh one, i.e. it carries nothing but its preamble
+    /// and the (still empty) array of reports being filled. A report which does not fit into
+    /// a fresh chunk cannot be delivered at all, no matter how many more chunks are opened.
+    chunk_fresh: bool,
 }
 
 impl<'a, 'b, 'c, const NE: usize, C> ReportDataResponder<'a, 'b, 'c, NE, C>
@@ -1909,6 +1913,7 @@ where
             event_reader,
             events,
             sent: false,
+            chunk_fresh: false,
         }
     }
 
@@ -1934,6 +1939,7 @@ where
     {
         let mut empty = true;
 
+        self.chunk_fresh = false;
         self.start_reply(wb)?;
 
         if !self
@@ -1972,6 +1978,7 @@ where
 
         if self.req.attr_requests()?.is_some() {
             wb.start_array(&TLVTag::Context(ReportDataRespTag::AttributeReports as u8))?;
+            self.chunk_fresh = true;
 
             for item in expand_read(&metadata, self.req, &accessor, &mut filter)? {
                 let item = item?;
@@ -1979,10 +1986,15 @@ where
                 *empty = false;
 
                 loop {
+                    let tail = wb.get_tail();
+
                     let result = self.invoker.process_read(&item, &mut *wb).await;
 
                     match result {
-                        Ok(()) => break,
+                        Ok(()) => {
+                            self.chunk_fresh &= wb.get_tail() == tail;
+                            break;
+                        }
                         Err(err) if err.code() == ErrorCode::NoSpace => {
                             let array_attr = item.as_ref().ok().filter(|attr| {
                                 attr.list_index.is_none()
@@ -1997,6 +2009,13 @@ where
                                 } else {
                                     return Ok(false);
                                 }
+                            } else if self.chunk_fresh {
+                                // The value does not fit even into a fresh chunk, so opening
+                                // yet another chunk would never end. Answer the path with
+                                // a status instead and go on with the rest of the request.
+                                error!("Attribute value too large for a single message, reporting RESOURCE_EXHAUSTED");
+                                self.report_too_large(item.as_ref().ok(), wb)?;
+                                break;
                             } else {
                                 debug!("<<< No TX space, chunking >>>");
                                 if !self
@@ -2049,6 +2068,8 @@ where
 
         if let Some(event_reqs) = self.req.event_requests()? {
             wb.start_array(&TLVTag::Context(ReportDataRespTag::EventReports as _))?;
+            // Fresh only if this chunk does not carry the array of attribute reports too
+            self.chunk_fresh = self.req.attr_requests()?.is_none();
 
             // Validate concrete event paths against node metadata
             // and emit EventStatusIB for non-wildcard paths that don't match
@@ -2087,6 +2108,7 @@ where
                         }
 
                         result?;
+                        self.chunk_fresh = false;
                     }
                 }
             }
@@ -2097,6 +2119,9 @@ where
                 let finished = self.events.fetch(|events| {
                     metadata.access(|node| {
                         for event in events {
+                            let event_number = event.event_number;
+                            let event_path = event.path.clone();
+
                             let result = self.event_reader.process_read(
                                 event,
                                 &event_reqs,
@@ -2108,11 +2133,29 @@ where
 
                             if let Err(e) = &result {
                                 if e.code() == ErrorCode::NoSpace {
-                                    return Ok::<_, Error>(false);
+                                    if !self.chunk_fresh {
+                                        return Ok::<_, Error>(false);
+                                    }
+
+                                    // The event does not fit even into a fresh chunk, so opening
+                                    // yet another chunk would never end. Report that on the event
+                                    // path and go on with the next event.
+                                    error!("Event too large for a single message, reporting RESOURCE_EXHAUSTED");
+                                    self.event_reader.skip(event_number);
+                                    EventResp::Status(EventStatus::new(
+                                        event_path,
+                                        IMStatusCode::ResourceExhausted,
+                                        None,
+                                    ))
+                                    .to_tlv(&TLVTag::Anonymous, &mut *wb)?;
+                                    self.chunk_fresh = false;
+                                    *empty = false;
+                                    continue;
                                 }
                             }
 
                             if result? {
+                                self.chunk_fresh = false;
                                 *empty = false;
                             }
                         }
@@ -2159,10 +2202,10 @@ where
     /// - `wb` - the buffer to use while sending the items
     async fn send_array_items(
         &mut self,
-        attr: &AttrDetails,
+        array_attr: &AttrDetails,
         wb: &mut WriteBuf<'_>,
     ) -> Result<bool, Error> {
-        let mut attr = attr.clone();
+        let mut attr = array_attr.clone();
 
         // First generate an empty array
         let mut list_index = None;
@@ -2182,6 +2225,8 @@ where
 
             match result {
                 Ok(()) => {
+                    self.chunk_fresh &= wb.get_tail() == pos;
+
                     // The empty array payload was sent
                     // Now iterate over the array and send each item one by one as separate payload
 
@@ -2193,6 +2238,16 @@ where
 
                     list_index = Some(new_list_index);
                     attr.list_index = Some(Nullable::some(new_list_index));
+                }
+                Err(err) if err.code() == ErrorCode::NoSpace && self.chunk_fresh => {
+                    // The array item does not fit even into a fresh chunk:
+                    // report that on the attribute and give up on the rest of the array,
+                    // rather than opening one chunk after the other without end
+                    error!(
+                        "Array item too large for a single message, reporting RESOURCE_EXHAUSTED"
+                    );
+                    self.report_too_large(Some(array_attr), wb)?;
+                    break;
                 }
                 Err(err) if err.code() == ErrorCode::NoSpace => {
                     debug!("<<< No TX space, chunking >>>");
@@ -2209,6 +2264,21 @@ where
         }
 
         Ok(true)
+    }
+
+    /// Report `RESOURCE_EXHAUSTED` for an attribute whose value (or array item) is too large
+    /// to be carried by a single message.
+    fn report_too_large(
+        &mut self,
+        attr: Option<&AttrDetails>,
+        wb: &mut WriteBuf<'_>,
+    ) -> Result<(), Error> {
+        if let Some(status) = attr.and_then(|attr| attr.status(IMStatusCode::ResourceExhausted)) {
+            AttrResp::Status(status).to_tlv(&TLVTag::Anonymous, &mut *wb)?;
+            self.chunk_fresh = false;
+        }
+
+        Ok(())
     }
 
     /// Send the reply to the peer, potentially opening another reply.
@@ -2237,12 +2307,14 @@ where
                 let cont = self.recv_status_success().await?;
                 self.start_reply(wb)?;
                 wb.start_array(&TLVTag::Context(ReportDataRespTag::AttributeReports as u8))?;
+                self.chunk_fresh = true;
                 cont
             }
             ReportDataChunkState::ChunkingEvents => {
                 let cont = self.recv_status_success().await?;
                 self.start_reply(wb)?;
                 wb.start_array(&TLVTag::Context(ReportDataRespTag::EventReports as u8))?;
+                self.chunk_fresh = true;
                 cont
             }
             ReportDataChunkState::Done => {
